@@ -15,8 +15,8 @@
 (***************************************************************************)
 EXTENDS GeomValidate, TLC, Json
 CONSTANTS Tier               \* "quick" | "thorough" | "cov" (a small sub-universe of both, run with -coverage: every action is taken)
-VARIABLES kind, toks, pc, val, why, bud
-vars == <<kind, toks, pc, val, why, bud>>
+VARIABLES kind, toks, pc, val, why, bud, vd      \* vd = <<ValidStrict, Valid, ValidLoose>> of (kind, toks), set at Begin
+vars == <<kind, toks, pc, val, why, bud, vd>>
 
 F  == FMAXHZ
 Thorough == Tier = "thorough"
@@ -92,17 +92,20 @@ Budget(c)     == IF c \notin Skeletons THEN 0
 
 (* ---- the machine: generation by edits, then Impl, one action per layer of the validator chain ---- *)
 Init == /\ \E c \in BaseCases : kind = c.kind /\ toks = c.toks /\ bud = Budget(c)
-        /\ pc = "gen" /\ val = toks /\ why = ""
+        /\ pc = "gen" /\ val = toks /\ why = "" /\ vd = <<>>
 \* one more fault somewhere in the structure (an action, so that all workers share the generation)
 Edit     == /\ pc = "gen" /\ bud > 0
             /\ \E e \in Edits1(toks) : toks' = e /\ val' = e
-            /\ bud' = bud - 1 /\ UNCHANGED <<kind, pc, why>>
+            /\ bud' = bud - 1 /\ UNCHANGED <<kind, pc, why, vd>>
 Step(r, nextpc) == IF r.ok THEN pc' = nextpc /\ val' = r.val /\ why' = ""
                    ELSE pc' = "rejected" /\ val' = <<>> /\ why' = r.why
-Begin    == pc = "gen" /\ pc' = "type" /\ bud' = 0 /\ UNCHANGED <<kind, toks, val, why>>     \* submit the structure (laws are checked here)
-TypeStep == pc = "type" /\ Step(TypeLayer(kind, val), "v1") /\ UNCHANGED <<kind, toks, bud>>
-V1Step   == pc = "v1" /\ Step(V1(kind, val), IF HasV2(kind) THEN "v2" ELSE "accepted") /\ UNCHANGED <<kind, toks, bud>>
-V2Step   == pc = "v2" /\ Step(V2(kind, val), "accepted") /\ UNCHANGED <<kind, toks, bud>>
+\* submit the structure; Req's verdict under the three readings is recorded once (the laws below are checked in this state)
+Begin    == /\ pc = "gen" /\ pc' = "type" /\ bud' = 0
+            /\ vd' = <<ValidStrict(kind, toks), Valid(kind, toks), ValidLoose(kind, toks)>>
+            /\ UNCHANGED <<kind, toks, val, why>>
+TypeStep == pc = "type" /\ Step(TypeLayer(kind, val), "v1") /\ UNCHANGED <<kind, toks, bud, vd>>
+V1Step   == pc = "v1" /\ Step(V1(kind, val), IF HasV2(kind) THEN "v2" ELSE "accepted") /\ UNCHANGED <<kind, toks, bud, vd>>
+V2Step   == pc = "v2" /\ Step(V2(kind, val), "accepted") /\ UNCHANGED <<kind, toks, bud, vd>>
 Next == Edit \/ Begin \/ TypeStep \/ V1Step \/ V2Step
 Spec == Init /\ [][Next]_vars /\ WF_vars(Next)
 
@@ -111,25 +114,30 @@ Export == Done => PrintT(<<"CASE", ToJson([kind |-> kind, toks |-> toks, c |-> T
 
 (* ---- invariants ---- *)
 AtStart == pc = "type"                                                   \* laws of Valid / Normal are checked once per case
+IsValid == vd[2]
 WellFormedCases  == AtStart => WellFormed(toks)                          \* the generators (incl. every edit) produce single nodes
 ParserAgrees     == AtStart => WellFormedDecl(toks) /\ (IsList(toks) => Kids(toks) = KidsDecl(toks))
-ImplIffValid     == (pc = "accepted" => Valid(kind, toks)) /\ (pc = "rejected" => ~Valid(kind, toks))
+ImplIffValid     == (pc = "accepted" => IsValid) /\ (pc = "rejected" => ~IsValid)
 ImplIsFunction   == Done => LET r == Impl(kind, toks) IN (r.ok <=> pc = "accepted") /\ r.val = val /\ r.why = why
 ImplValueNormal  == pc = "accepted" => val = Normal(kind, toks)
 SecondNeedsFirst == pc = "v2" => V1(kind, toks).ok                       \* the second validator only ever sees what the first let through
-LawReadings      == AtStart => (ValidStrict(kind, toks) => Valid(kind, toks)) /\ (Valid(kind, toks) => ValidLoose(kind, toks))
-LawNormalIdem    == (AtStart /\ Valid(kind, toks)) => Normal(kind, Normal(kind, toks)) = Normal(kind, toks)
-LawNormalValid   == (AtStart /\ Valid(kind, toks)) => /\ Valid(kind, Normal(kind, toks)) /\ InNormalForm(kind, Normal(kind, toks))
-                                                       /\ NormalFormObs(kind, Normal(kind, toks))
-LawNormalAllowed == (AtStart /\ Valid(kind, toks)) => Normal(kind, toks) \in AllowedNormals(kind, toks)
+LawReadings      == AtStart => (vd[1] => vd[2]) /\ (vd[2] => vd[3])
+LawNormalIdem    == (AtStart /\ IsValid) => Normal(kind, Normal(kind, toks)) = Normal(kind, toks)
+LawNormalValid   == (AtStart /\ IsValid) => /\ Valid(kind, Normal(kind, toks)) /\ InNormalForm(kind, Normal(kind, toks))
+                                             /\ NormalFormObs(kind, Normal(kind, toks))
+LawNormalAllowed == (AtStart /\ IsValid) => Normal(kind, toks) \in AllowedNormals(kind, toks)
 LawNormalKeepsPoints ==
-    (AtStart /\ Valid(kind, toks)) =>
+    (AtStart /\ IsValid) =>
       LET n == Normal(kind, toks) IN
       CASE kind = "LineString"  -> SameKidBag(n, toks)
         [] kind = "BoundingBox" -> {n[2], n[4]} = {toks[2], toks[4]} /\ {n[3], n[5]} = {toks[3], toks[5]}
                                    /\ n[2] + n[4] = toks[2] + toks[4] /\ n[3] + n[5] = toks[3] + toks[5]
         [] OTHER -> n = toks
-LawStrictOnlyMulti == (AtStart /\ Valid(kind, toks) /\ ~ValidStrict(kind, toks)) => kind = "MultiLineString"
-LawLooseOnlyPoly   == (AtStart /\ ValidLoose(kind, toks) /\ ~Valid(kind, toks)) => kind \in {"Polygon", "MultiPolygon"}
-Terminates == <>Done
+LawStrictOnlyMulti == (AtStart /\ vd[2] /\ ~vd[1]) => kind = "MultiLineString"
+LawLooseOnlyPoly   == (AtStart /\ vd[3] /\ ~vd[2]) => kind \in {"Polygon", "MultiPolygon"}
+\* termination without a liveness graph: every step lowers a natural-number rank, and no state short of Done is stuck
+Rank == bud + (CASE pc = "gen" -> 5 [] pc = "type" -> 4 [] pc = "v1" -> 3 [] pc = "v2" -> 2 [] OTHER -> 1)
+RankDecreases == [][Rank' < Rank /\ Rank' >= 1]_vars
+NeverStuck    == ~Done => ENABLED Next
+Terminates == <>Done                 \* checked as a liveness property on the "cov" sub-universe only (it doubles TLC's work)
 =============================================================================
